@@ -2,6 +2,8 @@ import GoImap.Props.C18
 #print axioms GoImap.C18.conforms
 #print axioms GoImap.C18.payload_after_cont
 #print axioms GoImap.C18.nothing_after_refusal
+#print axioms GoImap.C18.session_state
+#print axioms GoImap.C18.session_conforms
 #print axioms GoImap.C18.no_hang
 #print axioms GoImap.C18.no_stale_request
 #print axioms GoImap.C18.caps_has
